@@ -177,6 +177,22 @@ def conformance(m: HdlcModel):
     return res
 
 
+def fresh_only_at_flag(m: HdlcModel):
+    """a frame may only start at a flag octet: a fresh frame started on a non-flag octet parses mid-stream garbage as a frame"""
+    res = []
+    n = 0
+    for sp in m.paths:
+        if not m.feasible(sp) or sp.post.frame != "fresh":
+            continue
+        n += 1
+        if sp.lits.get("F") is not True:
+            res.append(Result("bad", "start-at-flag", "fresh-frame-without-flag", "a new frame is started on an octet that is not a flag (after a discard the reader must hunt for a flag; "
+                              "otherwise the bogus frame swallows the following traffic)", loc(m, sp), witness=f"[{sp.guard_text()}] => {sp.post.brief()}"))
+    if not res:
+        res.append(Result("ok", "start-at-flag", "frame starts", f"all {n} path(s) that start a fresh frame consume a flag octet"))
+    return res
+
+
 def length_guard(m: HdlcModel):
     """C02/R2: the maximum frame is admitted; C19/R2: every row that extends the frame checks the length afterwards."""
     res = []
@@ -270,7 +286,12 @@ def leak_typestate(m: HdlcModel):
                 p2 = "clean"
             r2 = raw
             for op in post.raw_ops:
-                r2 = "clean" if op == "clear" else "cur"
+                if op == "clear":
+                    r2 = "clean"
+                elif r2 == "prev":
+                    bad.setdefault("raw-kept", (st, sp))  # history of the previous frame still there when this frame's octets are added
+                else:
+                    r2 = "cur"
             if post.frame in ("none", "fresh"):
                 m2 = "hunt" if post.frame == "none" else "empty"
                 if p2 == "cur":
@@ -297,6 +318,12 @@ def leak_typestate(m: HdlcModel):
             st = prev
         return " ; ".join(reversed(out))
 
+    if "raw-kept" in bad:
+        st, sp = bad.pop("raw-kept")
+        res.append(Result("bad", "raw-clear", "raw-history-kept", f"the raw-octet history `{m.roles.raw}` is not cleared between frames: it grows with every frame received",
+                          loc(m, sp), witness=f"{trace(st)} ; then [{sp.guard_text()}] appends to it"))
+    else:
+        res.append(Result("ok", "raw-clear", "raw-octet store", "the raw-octet history is cleared before the first octet of every frame"))
     for what, (st, sp) in bad.items():
         field = m.roles.pending if what == "pending" else m.roles.raw
         res.append(Result("bad", "leak", f"{what}-leak", f"per-frame state `{field}` set in one frame is still set when the next frame's octets are processed",
